@@ -35,10 +35,13 @@ CLAIMED["C17"] = dict(
          "For every expansion order, refinement, step and number of stored points the short-exponential population propagation "
          "conserves the population sum when columns sum to zero (loop-invariant proof of the shared Taylor stepping). The grid "
          "algebra of get_PropagationMatrix (U_i = E^i U_0, U_0 = 1 | E^Ns | E_dt) is proved in any monoid. Tied to the code by "
-         "bit-exact runs of set_rate histories, 1e-9 runs of propagate and of sub-axis propagation matrices; non-negativity and "
-         "the distance to the matrix exponential (truncation bound) are measured against scipy expm by the oracle, not proved.",
+         "bit-exact runs of set_rate histories, 1e-9 runs of propagate and of sub-axis propagation matrices. The distance of m "
+         "elementary steps to exp(m dt K) p is within the truncation bound m e^{(m-1)x}(e^x - sum_{k<=L} x^k/k!)|p|, x = |dt K|, in "
+         "any complete normed algebra (populations_within_truncation_bound), and a first-order step keeps populations non-negative "
+         "for non-negative off-diagonal rates and dt|K_jj| <= 1 (euler_step_nonneg). Partial: non-negativity for higher expansion "
+         "orders is measured by the oracle, not proved.",
     note="Lean kernel + standard axioms; extractor for the set_rate arithmetic; hand model of which cells set_rate writes and of the "
-         "propagation loop; scipy.linalg.expm / numpy.linalg.eig as externals; accuracy clauses (bound vs exp, positivity) observed only.",
+         "propagation loop; scipy.linalg.expm / numpy.linalg.eig as externals; positivity beyond first order observed only.",
     technique="Lean 4 theorems over extracted kernel + loop-invariant induction + model/implementation correspondence",
     ref="DESIGN.md §5 C17")
 
@@ -130,8 +133,12 @@ CLAIMED["C07"] = dict(
          "with the code's own K, Lambda, Lambda^+ (1e-16), and by the oracle on API-built Redfield twins and random Lindblad twins: "
          "apply on random non-Hermitian operators inside/outside eigenbasis_of, convert_2_tensor (time independent and time dependent, "
          "then used in another basis), dynamics, the time-dependent tensor at t=0 and at its last index vs the time-independent tensor, "
-         "coarse propagation axes with partial refinement, and uncoupled sites vs exp(-iwt-g(t)). Partial: the limits of the time-"
-         "dependent tensor and the analytic pure-dephasing comparison (time-step error) are measured, not proved.",
+         "coarse propagation axes with partial refinement (also with step ratios that are whole but not exactly so in binary), "
+         "cut-off times, propagation inside eigenbasis_of for all four forms, and uncoupled sites vs exp(-iwt-g(t)). The element "
+         "formula of the time-dependent tensor vanishes where Lambda vanishes (time zero) and, for symmetric K, IS the "
+         "time-independent formula for the same Lambda (last time index): tdTerm_zero, tdTensor_zero, tdTerm_eq_loopTerm, "
+         "tdTensor_eq_redfieldTensor. Partial: that the running spline integral is empty at t0 and is the full integral at the last "
+         "index is a contract checked numerically; the analytic pure-dephasing comparison (time-step error) is measured, not proved.",
     note="Lean kernel + standard axioms; model validated on generated inputs; spline quadrature / c2g are externals. Known finding "
          "(open): time-dependent OPERATOR-form propagation on an axis coarser than the bath axis samples the tensor at wrong times.",
     technique="Lean 4 algebraic identity + congruence of the propagation loops + correspondence and API oracle",
